@@ -157,9 +157,25 @@ class Facts:
                 g = self.resolve_callee(t["callee"])
                 if g is not None:
                     callers.setdefault(g.path, set()).add(f.path)
+        # functions used as values (passed to an adaptor, stored): they can be called from contexts the call graph does not show
+        import json
+        import re as _re
+        as_value = set()
+        for f in self.fns:
+            if not f.d.get("mir"):
+                continue
+            for b in f.mir["blocks"]:
+                blobs = [json.dumps(st_) for st_ in b["stmts"]]
+                if b["term"]["k"] == "call":
+                    blobs.append(json.dumps(b["term"]["args"]))
+                for blob in blobs:
+                    for m in _re.finditer(r'"fn": \{"path": "([^"]+)"', blob):
+                        as_value.add(m.group(1))
         out = {}
         for f in self.fns:
             if f.kind not in ("Fn", "AssocFn") or f.d.get("exported", True) or f.d.get("impl_trait") or f.derived:
+                continue
+            if f.path in as_value:
                 continue
             if f.path not in callers or not f.d.get("mir"):
                 continue
